@@ -510,3 +510,41 @@ func nilReturnsGuarded(ne *NilEnv, ret *ssa.Return, errIdx int, guard func(g Gua
 }
 
 var _ = token.ADD
+
+// viaLocal: an instruction requirement that is also met by a call of a closure of the same function, or of an
+// unexported function of the same package, on all of whose ways from entry to a return the requirement is met
+// (fail := func(e error) (int, error) { r.request(-1, -1); return 0, e } … return fail(io.EOF)).
+func viaLocal(base func(ssa.Instruction) bool) func(ssa.Instruction) bool {
+	memo := map[*ssa.Function]int{}
+	var pred func(in ssa.Instruction, d int) bool
+	pred = func(in ssa.Instruction, d int) bool {
+		if base(in) {
+			return true
+		}
+		c, ok := in.(*ssa.Call)
+		if !ok || c.Call.IsInvoke() || d > 2 {
+			return false
+		}
+		h := c.Call.StaticCallee()
+		if h == nil || h.Blocks == nil || in.Parent() == nil || funcPkgPath(h) != funcPkgPath(in.Parent()) {
+			return false
+		}
+		if h.Parent() == nil {
+			if obj, isF := h.Object().(*types.Func); !isF || obj.Exported() {
+				return false
+			}
+		}
+		if v, seen := memo[h]; seen {
+			return v == 1
+		}
+		memo[h] = 0
+		isRet := func(i ssa.Instruction) bool { _, r := i.(*ssa.Return); return r }
+		miss, reached := pathsMissingEntry(h, isRet, nil, []edgeReq{{Name: "met", Instr: func(i ssa.Instruction) bool { return pred(i, d+1) }}})
+		if len(miss) == 0 && reached > 0 {
+			memo[h] = 1
+			return true
+		}
+		return false
+	}
+	return func(in ssa.Instruction) bool { return pred(in, 0) }
+}
